@@ -279,7 +279,11 @@ func (p *provider) setSingleton(key instanceKey, instance any) {
 	p.singletonKeys = append(p.singletonKeys, key)
 	p.singletonKeysMu.Unlock()
 
-	// Track if disposable
+	p.trackDisposable(instance)
+}
+
+// trackDisposable makes the provider dispose the instance when it is closed.
+func (p *provider) trackDisposable(instance any) {
 	if d, ok := instance.(Disposable); ok {
 		p.disposablesMu.Lock()
 		p.disposables = append(p.disposables, d)
